@@ -208,6 +208,8 @@ def instances(tier):
         forms = ["t1x2", "t1x3"] if tier == "quick" else ["t1x1", "t1x2", "t1x3", "t1x4", "ct2x2x2"]
         if tier == "quick" and kind in ("VLoss", "PSwitch"):
             forms.append("ct2x2x2")
+        # a table written for a negative rail: vi rows negative (descending in magnitude); same function of (|io|, |vi|)
+        forms.append("nct2x2x2" if tier == "quick" or kind not in ("VLoss", "PSwitch", "RectM") else "nct2x3x3")
         if tier == "thorough" and kind in ("VLoss", "PSwitch", "RectM"):
             forms += ["ct2x3x2", "ct2x3x3"]
         for form in forms:
